@@ -262,6 +262,67 @@ def check_partial_ord(chk, prog, sim):
         chk.discharge(key)
 
 
+def check_ord_overrides(chk, prog, sim):
+    """`<`, `<=`, `>`, `>=` on quantities go through PartialOrd::{lt,le,gt,ge}; when the impl overrides any of them (instead of
+    inheriting the provided methods, which call partial_cmp) each override must itself panic iff the units differ and be
+    the f32 comparison of the raw values."""
+    table = {"lt": {"<"}, "le": {"<", "="}, "gt": {">"}, "ge": {">", "="}}
+    ua, ub = sym_unit("a.unit"), sym_unit("b.unit")
+    for name, truth in table.items():
+        fns = prog.find_fns(name=name, self_name="Quantity", trait="PartialOrd")
+        for fn in fns:
+            if "body" not in fn:
+                continue
+            key = "f:Quantity-" + name
+            chk.obligation(key, "overridden PartialOrd::%s panics iff units differ, otherwise compares the raw values" % name)
+            chk.analysed(fn["pretty"])
+            st = S.State()
+            gargs = sim.identity_gargs(fn)
+            a0 = sim.make_arg(st, "a", subst(fn["sig_inputs"][0], gargs))
+            b0 = sim.make_arg(st, "b", subst(fn["sig_inputs"][1], gargs))
+            ok = True
+            npanic = 0
+            for leaf in sim.run(fn, gargs, [a0, b0], st):
+                chk.evaluated(1, nontrivial=(key, repr(leaf.pc)))
+                stl = leaf.state
+                same = forced_equal(sim, stl, ua[0], ub[0]) and forced_equal(sim, stl, ua[1], ub[1])
+                maybe_same = possibly_equal(sim, stl, ua[0], ub[0]) and possibly_equal(sim, stl, ua[1], ub[1])
+                if leaf.kind == "panic":
+                    npanic += 1
+                    if maybe_same:
+                        chk.violation("C01.panic-iff", key, "%s panics although units may be equal (path %s)" % (name, leaf.pc), fn=fn["pretty"])
+                        ok = False
+                    continue
+                if leaf.kind != "return":
+                    chk.violation("analysis-incomplete" if leaf.kind == "unsupported" else "C01.op", key, "%s: %s %s" % (name, leaf.kind, leaf.info.get("msg")))
+                    ok = False
+                    continue
+                if not same:
+                    chk.violation("C01.panic-iff", key, "Quantity %s Quantity (PartialOrd::%s, %s) returns although the units may differ (path %s): ordering mismatched units is not rejected by this operator"
+                                  % ({"lt": "<", "le": "<=", "gt": ">", "ge": ">="}[name], name, loc(fn["span"]), leaf.pc), fn=fn["pretty"], file=loc(fn["span"]))
+                    ok = False
+                    continue
+                r = sim.final_value(stl, leaf.value)
+                rel = None
+                for p in leaf.pc:
+                    if p[0] == "frel" and p[1] == "a.value ? b.value":
+                        rel = set(p[2])
+                    elif p[0] == "frel" and p[1] == "b.value ? a.value":
+                        rel = {{"<": ">", ">": "<"}.get(c, c) for c in p[2]}
+                if rel is None or not isinstance(r, Const):
+                    chk.violation("C01.op", key, "%s result %r is not decided by the f32 comparison of the raw values (path %s)" % (name, r, leaf.pc), fn=fn["pretty"], file=loc(fn["span"]))
+                    ok = False
+                    continue
+                if (bool(r.val) and not rel <= truth) or (not bool(r.val) and rel & truth):
+                    chk.violation("C01.op", key, "%s returns %s when a.value %s b.value" % (name, r.val, "".join(sorted(rel))), fn=fn["pretty"], file=loc(fn["span"]))
+                    ok = False
+            if npanic == 0:
+                chk.violation("C01.panic-iff", key, "%s never panics: ordering mismatched units is not rejected" % name, fn=fn["pretty"], file=loc(fn["span"]))
+                ok = False
+            if ok:
+                chk.discharge(key)
+
+
 def check_piece_conversions(chk, prog, sim, rule, key, want, tag=""):
     """MotionProfilePiece -> PositionDerivative / Unit: defined exactly for the three moving pieces (shared with C06, which
     also evaluates it with dimension checking compiled out, where only the presence pattern remains)."""
@@ -455,7 +516,20 @@ def _run_config(chk, cfg, primary):
             good = False
     if good:
         chk.discharge(key)
+    if primary:
+        # mixed operands: the numeric part is "the same operator on the raw values" only if the integer operand is converted
+        # exactly (ns as f32 / 1e9, n as f32); the conversion shapes are C18's table, evaluated here as part of C01.value
+        import rules.C18 as C18
+        import report
+        sub = report.Check("C01", chk.tier)
+        C18.check_conversions(sub, prog, sim)
+        chk.evaluated(1, nontrivial=("mixed-conversions",))
+        for v in sub.violations:
+            if "Quantity::from(" in v["key"] or v["rule"] == "analysis-incomplete":
+                chk.violation("C01.value" if v["rule"] != "analysis-incomplete" else v["rule"], "mixed-conversion:" + v["key"],
+                              "mixed Quantity/Time/DimensionlessInteger operators convert the integer operand inexactly: " + v["what"], **v.get("detail", {}))
     check_partial_ord(chk, prog, sim)
+    check_ord_overrides(chk, prog, sim)
     check_eq_helpers(chk, prog, sim)
     check_conversions(chk, prog, sim)
     if primary:
